@@ -565,3 +565,45 @@ def run_generic(run, tier="quick", only=None, procs=16, keep=None):
     for kname, text in ncalg.RULES.items():
         run.trust(f"Engine D rule [{kname}]: {text}")
     return len(names), nobs
+
+
+# ---------------------------------------------------------------------------------------
+# the rule table, re-proved in Lean 4 / Mathlib for arbitrary dimension
+
+
+def lean_start():
+    """starts `lean lean/MatrixLemmas.lean` in the background (about 2 minutes cold, seconds warm)"""
+    import os
+    import shutil
+    import subprocess
+    src = os.path.join(core.VERIF, "lean", "MatrixLemmas.lean")
+    if shutil.which("lean") is None or not os.path.exists(src):
+        return None
+    return subprocess.Popen(["lean", src], stdout=subprocess.PIPE, stderr=subprocess.STDOUT, text=True, cwd=os.path.dirname(src)), src, time.time()
+
+
+def lean_finish(run, handle):
+    import re
+    if handle is None:
+        run.ob("lean/rule-table", core.UNKNOWN, "lean4+mathlib", 0.0, "lean or lean/MatrixLemmas.lean not available")
+        return
+    proc, src, t0 = handle
+    try:
+        out, _ = proc.communicate(timeout=1500)
+    except Exception:  # noqa: BLE001
+        proc.kill()
+        run.ob("lean/rule-table", core.UNKNOWN, "lean4+mathlib", time.time() - t0, "lean did not finish within the budget")
+        return
+    text = open(src).read()
+    names = re.findall(r"^theorem\s+([A-Za-z_0-9']+)", text, flags=re.M)
+    cheats = re.findall(r"\b(sorry|admit|axiom|native_decide)\b", re.sub(r"/-.*?-/", "", text, flags=re.S))
+    errors = [l for l in out.splitlines() if ": error" in l or "declaration uses 'sorry'" in l]
+    secs = time.time() - t0
+    for i, nm in enumerate(names):
+        if cheats:
+            run.ob(f"lean/{nm}", core.UNKNOWN, "lean4+mathlib", 0.0, f"the lemma file contains {sorted(set(cheats))}: nothing is counted as proved")
+        elif proc.returncode != 0 or errors:
+            run.ob(f"lean/{nm}", core.UNKNOWN, "lean4+mathlib", secs if i == 0 else 0.0, "lean rejected the lemma file: " + " | ".join(errors[:3])[:400])
+        else:
+            run.ob(f"lean/{nm}", core.DISCHARGED, "lean4+mathlib", secs if i == 0 else 0.0, text=f"theorem MiciLemmas.{nm} (lean/MatrixLemmas.lean) type-checks against Mathlib: for all finite dimensions")
+    run.trust("Lean 4.33 kernel + Mathlib v4.33 (the rule table of Engine D is proved there; the *correspondence* between a rule's name in vf/ncalg.py:RULES and the Lean statement is by reading)")
